@@ -48,8 +48,12 @@ Inductive event :=
 | EvStop                     (* stop requested from outside (signal, finish_gracefully) *)
 | EvCancelLoop (q : Z)       (* run_one_queue cancels the loop after the stop event *)
 | EvEnqueue (q m : Z)        (* a producer enqueues m on q *)
-| EvCancelLost (q : Z).      (* the cancellation hit consume() after it had taken a message (in the middleware tail of the
+| EvCancelLost (q : Z)       (* the cancellation hit consume() after it had taken a message (in the middleware tail of the
                                 call): the loop never saw the message - consumer.finish() returns it (in-memory broker) *)
+| EvPauseStart (q : Z)       (* a consumer whose pause() is a round trip (RabbitMQ: basic.qos): the limiter was locked, pause() is
+                                on the wire, the loop has NOT queued up yet - it does (EvPause) if the limiter is still locked
+                                when pause() returns, and takes the slot at once (EvAcquireFast) if one has freed meanwhile *)
+| EvUnpauseHold (q : Z).     (* ... in that second case: unpause() of a loop that never waited *)
 
 
 Fixpoint get_loop (q : Z) (ls : list loop) : option loop :=
@@ -199,6 +203,20 @@ Definition step_ev (s : rstate) (e : event) : option rstate :=
       match get_loop q (loops s) with
       | Some (mkLoop _ (LGot m) p) =>
           Some (upd s (value s) (waiters s) (set_loop q LDone p (loops s)) (tasks s) (started s) (processed s) (stop s) (backlog s) (leaked s ++ [m]))
+      | _ => None
+      end
+  | EvPauseStart q =>
+      match get_loop q (loops s) with
+      | Some (mkLoop _ (LGot m) p) =>
+          if locked s
+          then Some (upd s (value s) (waiters s) (set_loop q (LGot m) true (loops s)) (tasks s) (started s) (processed s) (stop s) (backlog s) (leaked s))
+          else None
+      | _ => None
+      end
+  | EvUnpauseHold q =>
+      match get_loop q (loops s) with
+      | Some (mkLoop _ (LHold m) true) =>
+          Some (upd s (value s) (waiters s) (set_loop q (LHold m) false (loops s)) (tasks s) (started s) (processed s) (stop s) (backlog s) (leaked s))
       | _ => None
       end
   end.
